@@ -557,3 +557,59 @@ package vanguard
 //@ func (*bufferPool).Wrap
 //@   requires orig != nil
 //@   ensures[C15] result != nil && blen(result) == len(data)
+
+// ------------------------------------------------------------------------------------------------
+// C09 / C10 / C08 / C02 / C16: request side (readers)
+
+//@ pred hlrInv(h) = h != nil && h.r != nil && extern(h.r) && h.limit >= 0 && 0 <= h.read && h.read <= h.limit + 1 && (h.rw != nil ==> rwInv(h.rw))
+
+//@ func (*hardLimitReader).error
+//@   requires h != nil
+//@   ensures[C09] result != nil && !errIs(result, io.EOF) && isConnErr(result) && code(result) == 8
+//@   modifies #LIB
+
+//@ func (*hardLimitReader).Read
+//@   dispatch (io.Reader).Read: none
+//@   preserves hlrInv(h)
+//@   step h.read >= old(h.read) && h.limit == old(h.limit) && h.r == old(h.r) && h.rw == old(h.rw) && (h.rw != nil ==> rwStep(h.rw))
+//@   ensures[C10,C08] 0 <= n && n <= len(data) && h.read == old(h.read) + n
+//@   ensures[C09,C10] h.read > h.limit ==> err != nil && !errIs(err, io.EOF)
+//@   modifies h.read, #RWEND
+
+//@ pred readerOK(r) = r != nil && extern(r) && !typeIs(r, *bytes.Buffer)
+
+//@ func (*operation).readRequestMessage
+//@   dispatch (io.Reader).Read: none
+//@   requires validOp(o) && prepOK(o) && msg != nil && readerOK(reader) && (rw != nil ==> rwInv(rw) && rw.op == o)
+//@   requires[C14] ownMsg(msg)
+//@   ensures[C09] err == nil ==> msg.stage == 1 && msg.buf != nil
+//@   ensures[C09,C10] err == nil ==> blen(msg.buf) <= limitOf(o)
+//@   ensures[C09] err == nil && o.clientEnveloper == nil && o.contentLen >= 0 ==> blen(msg.buf) <= o.contentLen
+//@   ensures[C09] err != nil ==> msg.stage == 0 || msg.stage == old(msg.stage)
+//@   ensures msg.isRequest || err != nil && msg.buf == old(msg.buf)
+//@   ensures[C14] ownMsg(msg)
+//@   ensures rw != nil ==> rwInv(rw) && rwStep(rw)
+//@   modifies msg.stage, msg.size, msg.isRequest, msg.wasCompressed, msg.buf, owned(msg.buf), blen(msg.buf), owned(rw.buf), blen(rw.buf), #RWEND
+
+//@ pred curOK(c, rw) = c == nil || (extern(c) && (typeIs(c, *bytes.Buffer) ==> unbox(c, *bytes.Buffer) != nil)) || (typeIs(c, *hardLimitReader) && hlrInv(unbox(c, *hardLimitReader)) && unbox(c, *hardLimitReader).rw == rw)
+//@ pred validER(r) = r != nil && rwInv(r.rw) && prepOK(r.rw.op) && readerOK(r.r) && 0 <= r.envRemain && r.envRemain <= 5 && curOK(r.current, r.rw)
+//@ |  && (r.envRemain > 0 ==> r.current != nil)
+
+//@ func (*envelopingReader).prepareNext
+//@   opt conv
+//@   dispatch (io.Reader).Read: none
+//@   requires validER(r) && r.err == nil
+//@   step rwStep(r.rw)
+//@   ensures validER(r) && r.rw == old(r.rw) && r.r == old(r.r)
+//@   ensures[C02] err == nil ==> r.current != nil && (r.rw.op.serverEnveloper != nil ==> r.envRemain == 5) && (r.rw.op.serverEnveloper == nil ==> r.envRemain == 0)
+//@   ensures[C09] err != nil ==> r.envRemain == old(r.envRemain) && r.current == old(r.current)
+//@   ensures[C10,C02] err == nil && r.rw.op.clientEnveloper == nil && r.rw.op.serverEnveloper != nil ==> be32(r.env) <= limitOf(r.rw.op)
+
+//@ func (*envelopingReader).Read
+//@   dispatch (io.Reader).Read: *hardLimitReader
+//@   requires validER(r)
+//@   step rwStep(r.rw)
+//@   atcall[C08] (io.Reader).Read: r.envRemain == 0
+//@   ensures[C08] 0 <= n && n <= len(data)
+//@   ensures[C08] old(r.err) == nil && old(r.envRemain) > 0 ==> n >= min(len(data), old(r.envRemain)) && r.envRemain == old(r.envRemain) - min(len(data), old(r.envRemain))
+//@   ensures validER(r) && r.rw == old(r.rw)
